@@ -374,7 +374,7 @@ Qed.
 
 (* reads never change the state *)
 Theorem reads_pure s o :
-  match o with OGet _ | OGetPos _ _ _ | OGetSP _ _ _ => True | _ => False end ->
+  match o with OGet _ | OGetPos _ _ _ | OGetSP _ _ _ | OGetD _ _ => True | _ => False end ->
   fst (Store.step s o) = s.
 Proof.
   destruct o; intros H; try contradiction; cbn [Store.step];
